@@ -149,6 +149,49 @@ def _stream(case, wires):
     return b"".join(msgs), out
 
 
+def _wsgi(case, wires):
+    """The same requests through the real WSGI Server on ONE keep-alive connection (fake accepted socket); the
+    application snapshots the environ it is given for every request."""
+    import contextlib, io
+    from hio.core.http import serving
+    from hio.base import tyming
+    from harness.drivers.c16 import FakeSock, FakeListen
+    snaps = []
+
+    def app(environ, start_response):
+        body = environ["wsgi.input"].read()
+        snaps.append({"REQUEST_METHOD": environ["REQUEST_METHOD"], "PATH_INFO": environ["PATH_INFO"],
+                      "QUERY_STRING": environ["QUERY_STRING"], "CONTENT_TYPE": environ.get("CONTENT_TYPE"),
+                      "CONTENT_LENGTH": environ.get("CONTENT_LENGTH"),
+                      "http": [[k, v] for k, v in environ.items() if k.startswith("HTTP_")], "input": body.hex()})
+        start_response("200 OK", [("Content-Length", "2")])
+        return [b"ok"]
+
+    pre = bytes.fromhex(case.get("first_raw", ""))
+    msgs = ([pre] if pre else []) + wires
+    tymist = tyming.Tymist()
+    srv = serving.Server(port=PORT, app=app, tymth=tymist.tymen())
+    ls = FakeListen()
+    srv.servant.ss, srv.servant.opened = ls, True
+    a = FakeSock(("127.0.0.1", 40001), PORT)
+    ls.pending.append(a)
+    pipelined = case.get("pipelined", True)
+    err = None
+    with contextlib.redirect_stderr(io.StringIO()):
+        try:
+            if pipelined:
+                a.inq.append(b"".join(msgs))
+            for i in range(len(msgs) + 3):
+                if not pipelined and i < len(msgs):
+                    a.inq.append(msgs[i])
+                srv.service()
+        except Exception as ex:
+            err = type(ex).__name__ + ": " + str(ex)[:100]
+        finally:
+            srv.servant.ss = None
+    return snaps, err
+
+
 def run_impl(case):
     steps = []
     sp = specs(case)
@@ -169,7 +212,8 @@ def run_impl(case):
             steps.append(_observe(wire, spec["body"][0] == "form" and spec["method"] != "GET"))
         wires = [bytes.fromhex(so["built"]) for so in steps if so.get("built")]
         stream_in, stream = _stream(case, wires)
-    obs = {"steps": steps, "stream_in": stream_in.hex(), "stream": stream, "stream_n": (1 if case.get("first_raw") else 0) + len(wires)}
+        wsgi, wsgi_err = _wsgi(case, wires)
+    obs = {"steps": steps, "wsgi": wsgi, "wsgi_err": wsgi_err, "stream_in": stream_in.hex(), "stream": stream, "stream_n": (1 if case.get("first_raw") else 0) + len(wires)}
     obs.update(rec.tables())
     return obs
 
@@ -234,7 +278,7 @@ def wf(case):
 
 
 def oracle(case, obs):
-    why = _oracle_stream(case, obs)
+    why = _oracle_stream(case, obs) or _oracle_wsgi(case, obs)
     if why:
         return why
     for i, (spec, so) in enumerate(zip(specs(case), obs["steps"])):
@@ -265,6 +309,34 @@ def _oracle_stream(case, obs):
             if g[f] != a[f]:
                 return (f"request #{i + 1} on a shared connection: {f} {g[f]!r} differs from the same request parsed "
                         f"alone {a[f]!r} (state of the previous request leaked)")
+    return None
+
+
+def _oracle_wsgi(case, obs):
+    """the environ the WSGI application gets for every request of a keep-alive connection is exactly that of
+    the request built: same CGI variables, same body, same HTTP_* set (no key of an earlier request)"""
+    sp = specs(case)
+    if not all(wf(x) for x in sp):
+        return None
+    if obs.get("wsgi_err"):
+        return f"Server.service raised {obs['wsgi_err']}"
+    alone = [so.get("env") for so in obs["steps"] if so.get("built")]
+    if any(a is None for a in alone) or any(h[0].lower() == "connection" for x in sp for h in x["headers"]):
+        return None
+    got = obs["wsgi"][1:] if case.get("first_raw") else obs["wsgi"]
+    if len(got) != len(alone):
+        return f"the application was called for {len(got)} of the {len(alone)} requests of the connection"
+    for i, (g, a) in enumerate(zip(got, alone)):
+        for f in ("REQUEST_METHOD", "PATH_INFO", "QUERY_STRING", "CONTENT_LENGTH", "input"):
+            if g[f] != a[f]:
+                return f"WSGI environ of request #{i + 1}: {f} {g[f]!r} != {a[f]!r}"
+        want = sorted(a["http"])
+        if sorted(g["http"]) != want:
+            extra = [k for k, v in g["http"] if [k, v] not in want]
+            return f"WSGI environ of request #{i + 1}: HTTP_* keys differ from the request built; extra/stale: {extra[:4]}"
+        ct = dict(a["http"]).get("HTTP_CONTENT_TYPE", "")
+        if (g["CONTENT_TYPE"] or "") != ct:
+            return f"WSGI environ of request #{i + 1}: CONTENT_TYPE {g['CONTENT_TYPE']!r} != {ct!r}"
     return None
 
 
@@ -368,14 +440,19 @@ def to_coq(case, obs):
     req = ("{| HttpReq.q_method := %s; HttpReq.q_path := %s; HttpReq.q_qargs := %s; HttpReq.q_headers := %s; HttpReq.q_body := %s |}"
            % (_s(case["method"]), _s(case["path"]), _pairs(case["qargs"]), _pairs(case["headers"]), _body_term(case["body"])))
     return ("{| HttpReq.y_req := %s; HttpReq.y_ops := %s; HttpReq.y_host := %s; HttpReq.y_port := %s; HttpReq.y_ip6 := %s; "
-            "HttpReq.y_nfkc := %s; HttpReq.y_steps := %s; HttpReq.y_stream_in := %s; HttpReq.y_stream_n := %s; HttpReq.y_stream := %s |}"
+            "HttpReq.y_nfkc := %s; HttpReq.y_steps := %s; HttpReq.y_stream_in := %s; HttpReq.y_stream_n := %s; HttpReq.y_stream := %s; HttpReq.y_wsgi := %s |}"
             % (req, coq_list([_op_term(o) for o in case.get("ops", [])], "HttpReq.rargs"), _s(HOST), coq_N(PORT),
                _tbl(obs["ip6"]), _tbl(obs["nfkc"]), coq_list([_step_term(x) for x in obs["steps"]], "HttpReq.stepobs"),
                coq_bytes(bytes.fromhex(obs["stream_in"])), "%d%%nat" % obs["stream_n"],
                coq_list(["None" if x is None else
                          f"(Some ({_s(x['method'])}, {_s(x['path'])}, {_s(x['query'])}, {_pairs(x['headers'])}, {coq_bytes(bytes.fromhex(x['body']))}))"
                          for x in obs["stream"]],
-                        "option (HttpReqUrl.ustr * HttpReqUrl.ustr * HttpReqUrl.ustr * list (HttpReqUrl.ustr * HttpReqUrl.ustr) * bytes)")))
+                        "option (HttpReqUrl.ustr * HttpReqUrl.ustr * HttpReqUrl.ustr * list (HttpReqUrl.ustr * HttpReqUrl.ustr) * bytes)"),
+               coq_list(["(%s, %s, %s, %s, %s, %s, %s)" % (_s(w["REQUEST_METHOD"]), _s(w["PATH_INFO"]), _s(w["QUERY_STRING"]), _s(w["CONTENT_TYPE"] or ""),
+                                                          "None" if w["CONTENT_LENGTH"] is None else f"(Some {_s(w['CONTENT_LENGTH'])})",
+                                                          _pairs(w["http"]), coq_bytes(bytes.fromhex(w["input"])))
+                         for w in obs["wsgi"]],
+                        "HttpReqUrl.ustr * HttpReqUrl.ustr * HttpReqUrl.ustr * HttpReqUrl.ustr * option HttpReqUrl.ustr * list (HttpReqUrl.ustr * HttpReqUrl.ustr) * bytes")))
 
 
 # --------------------------------------------------------------------------- generators
